@@ -213,8 +213,9 @@ func Decrypt(in io.Reader, opts DecryptOptions) (io.Reader, error) {
 
 	// Unwrap the file key
 	// Note: we're skipping the nonce and tag parameters at the moment because none of the supported ciphers use them
-	fileKeyBytes, _ := opts.UnwrapKeyFn(manifestObj.WFK, string(manifestObj.KeyWrappingAlgorithm), keyName, nil, nil)
-	if len(fileKeyBytes) != 32 {
+	fileKeyBytes, unwrapErr := opts.UnwrapKeyFn(manifestObj.WFK, string(manifestObj.KeyWrappingAlgorithm), keyName, nil, nil)
+	unwrapped := unwrapErr == nil && len(fileKeyBytes) == 32
+	if !unwrapped {
 		// This is where things get a bit tricky.
 		// If the UnwrapKeyFn returned an error, we want to ignore that for now, and instead continue validating the MAC using an empty fileKey (which will fail).
 		// This is because otherwise we may be making it easier to disclose certain information such as whether a key exists or not in the vault via timing attacks.
@@ -233,6 +234,11 @@ func Decrypt(in io.Reader, opts DecryptOptions) (io.Reader, error) {
 	err = fk.VerifyHeaderSignature(manifest, mac)
 	if err != nil {
 		return nil, err
+	}
+	if !unwrapped {
+		// The MAC above was checked with the placeholder key, which is not a secret: a document that verifies under it was not
+		// produced by the holder of the wrapping key, so it must be rejected just like any other document whose MAC does not match.
+		return nil, ErrDecryptionSignature
 	}
 
 	// Start a background goroutine to perform the encryption, and return the stream to the caller
